@@ -544,8 +544,11 @@ def typed (r : PRow) : Bool := match rowType r with | some (_ :: _) => true | _ 
 
 def disabledTrig (r : PRow) : Bool := keyIn r "disabled"
 def skippedTrig (r : PRow) : Bool := active r && !typed r && !(keyIn r "name" || keyIn r "label")
+/-- the metadata types documented as deprecated (the model reads `DEPRECATED_DEVICE_ID_METADATA_FIELDS`;
+    `C20.deprecated_pinned` states that the two agree) -/
+def documentedDeprecated : List Str := ["simserial".toList, "subscriberid".toList]
 def deprecatedTrig (r : PRow) (t : Str) : Bool :=
-  active r && rowType r = some t && deprecatedTypes.contains t && t ≠ "audit".toList
+  active r && rowType r = some t && documentedDeprecated.contains t && t ≠ "audit".toList
 def noLabelTrig (r : PRow) (ct : Str) : Bool :=
   active r && typed r &&
   (match rowType r with
